@@ -57,14 +57,17 @@ def lay_out(r, base, zones, hosts):
     os.makedirs(os.path.join(base, "zdir", "subdir-is-ignored"))
     k = r.randint(0, len(zones))
     zone_files, zone_dir_names = [], []
+    # now and then the FIRST file is made long to read (megabytes of comment lines that denote nothing): the order in
+    # which files take effect is the order in which they are given, not the order in which their loading ends
+    pad = ("\n" + "; %s\n" % ("padding " * 12) * 30000) if (len(zones) >= 2 and r.random() < 0.12) else ""
     for i, z in enumerate(zones[:k]):
         p = os.path.join(base, "explicit-%d.zone" % (len(zones) - i))       # names do not matter for explicit files
-        open(p, "w").write(render_zone(z))
+        open(p, "w").write(render_zone(z) + (pad if i == 0 else ""))
         zone_files.append(p)
     # directory entries: sorted order is byte order of the file name ("10-" sorts before "2-")
     names = sorted(r.sample(["10-a.zone", "2-b.zone", "A.zone", "a.zone", "_x.zone", "z.zone", "1.zone", "b/../c.zone"[:1] + ".zone"], len(zones) - k))
-    for name, z in zip(names, zones[k:]):
-        open(os.path.join(base, "zdir", name), "w").write(render_zone(z))
+    for j, (name, z) in enumerate(zip(names, zones[k:])):
+        open(os.path.join(base, "zdir", name), "w").write(render_zone(z) + (pad if (k == 0 and j == 0) else ""))
     kh = r.randint(0, len(hosts))
     hosts_files = []
     for i, h in enumerate(hosts[:kh]):
